@@ -10,6 +10,7 @@ add("C10", "checks/c10_queue.c", ["default-asan", "noinfo-asan", "default-plain"
     extra_sources=["kit/ref_queue.c"], ldflags=["-Wl,--wrap=strndup", "-Wl,--wrap=free", "-Wl,--wrap=OUR_strndup"],
     level="fault_enumeration",
     exhaustive=dict(quick=False, thorough=False),
+    rule_more="capacities 255..32767 (ring indices past the int16 limit) with LeakSanitizer's recoverable check; texts longer than 255 characters; queue storage replaced on the live context; C90 library (ledger also wraps OUR_strndup)",
     technique="model-based runtime monitor: real error queue vs kit/ref_queue (shifting-array reference FIFO with overflow marker) compared after "
               "every operation through SCPI_ErrorPop, SYST:ERR? (own IEEE 488.2 string-response reader), SCPI_ErrorCount and SYST:ERR:COUN?; "
               "ownership ledger on --wrap=strndup/--wrap=free with owner tracking, quarantine of released texts (poisoned under ASan, scribbled in "
